@@ -175,6 +175,10 @@ def c01(tier, seed):
     c = Check("C01", tier, seed)
     thorough = tier == T
     c.model_check("MC_API.tla", "MC_API.cfg" if thorough else "MC_API_quick.cfg", "MC_API", workers=8, timeout=1500)
+    if thorough:
+        # extra (not needed for the verdict): TLAPS proves that every round shape used by the ciphers is invertible for an
+        # arbitrary round function (spec/proofs/RoundInverse.tla)
+        c.notes["tlaps_round_inverse_lemmas"] = tlc.tlaps_check(os.path.join(SPEC, "proofs", "RoundInverse.tla"), os.path.join(c.work, "tlaps"))
     evs = []
     for i, (cfg_id, extra, fam) in enumerate(all_configs_for_roundtrip() + [(sid, {}, fam) for sid, fam in shadow_cfgs(("AES", "Kuznyechik"))]):
         kw = dict(keys=30 if thorough else 3, blocks=8 if thorough else 2, lens="all" if thorough else "few")
